@@ -56,6 +56,39 @@ CHECKS = {
         "the frozen table (1e-12).",
         "Trusted: accepted values written into checks/c08.py (IAU 2015 / CODATA); vlib/unitmodel.py.",
         "DESIGN.md section 3 C08"),
+    "C09": (
+        "differential PBT (Vector operation vs the same operation on each component Array) + independent numpy/cgs "
+        "oracle and algebraic-law metamorphic relations for norm/dot/cross",
+        "Generated Vector operations (arithmetic, comparisons, logical, unary, numpy functions, reflected forms; "
+        "rhs Vector/Array/number/ndarray/Quantity; 1-3 components) must equal the component-wise lifting bit for "
+        "bit (reflected forms: as physical quantities) or raise together; component-count mismatches must raise "
+        "ValueError. norm/dot/cross are recomputed with numpy on cgs values from the independent unit model and "
+        "checked against symmetry, antisymmetry, a.(axb)=0 and the Lagrange identity with mixed compatible units.",
+        "Trusted: component Array operations (decided by C02/C07/C10) as the lifting reference; vlib/unitmodel.py. "
+        "Known finding: norm of a 1-component Vector is signed.",
+        "DESIGN.md section 3 C09"),
+    "C10": (
+        "catalogue-driven PBT: exhaustive function x unit-assignment x dtype table + generated values/shapes/"
+        "keyword forms, oracle = numpy on raw values + unit class from the independent unit engine",
+        "A fixed catalogue of ~95 numpy functions in three unit classes is called on Arrays in positional, axis=, "
+        "keepdims= and out= forms with same / compatible / incompatible / bare operands; values must equal numpy's "
+        "on raw values (n-ary: as physical quantities), the unit must follow the class, mixed units must be "
+        "converted or refused.",
+        "Trusted: the class assignment of the catalogue (taken from the property statement); numpy as value "
+        "reference. Known finding (one root cause): non-transforming n-ary functions combine raw numbers of "
+        "operands in different units.",
+        "DESIGN.md section 3 C10"),
+    "C17": (
+        "model-based PBT over operation histories on an object graph; reference model with explicit aliasing "
+        "(numpy buffers + index expressions, container membership by identity)",
+        "Generated histories of in-place updates (four operators, six operand kinds, via name or via container), "
+        "copy()/copy.copy/copy.deepcopy of Arrays, Vectors, Datagroups and Datasets, shallow container copies, "
+        "slices and container insertions; after every step every tracked object and alias must equal the aliasing "
+        "model (values, unit), np.shares_memory is asserted false for copies and true for slices, identity of "
+        "in-place results and container members is asserted.",
+        "Trusted: numpy view semantics as the aliasing reference; vlib/unitmodel.py. Bounded to <=12 steps, "
+        "1-d members of 3-6 rows. Not covered: 2-d slices.",
+        "DESIGN.md section 3 C17"),
 }
 
 NOT_APPLICABLE = []
